@@ -136,7 +136,7 @@ ObsRemove(o, n, res) ==
          IN [o EXCEPT !.rmTried = @ \cup {n},
                       !.bad = @ \cup (IF oldest THEN {} ELSE {"OldestFirst"}),
                       !.files = IF hit THEN [m \in DOMAIN fs \ {n} |-> fs[m]] ELSE @,
-                      !.gone = IF hit THEN @ \cup {t \in SeqRange(fs[n].syn) : IsEv(t)} ELSE @,
+                      !.gone = IF hit /\ fs[n].ent THEN @ \cup {t \in SeqRange(fs[n].syn) : IsEv(t)} ELSE @,
                       !.retFault = IF res = "ok" THEN @ ELSE TRUE,
                       !.lastGood = IF hit /\ n = @ THEN None ELSE @]
 
@@ -207,10 +207,11 @@ ObsRestart(o) ==
 (* NoPanic OwnSetOnly.  (NewestFirstTie is finding F15 and is not part of NewestFirst.)     *)
 
 \* every event reported as written is complete in synced content (of a file in the
-\* directory, or of one retention removed) - in every state, in particular after a crash
+\* directory whose entry is synced too, or of one retention removed) - in every state, in
+\* particular after a crash
 DurableOf(o) ==
     \A e \in o.acked :
-        e \in o.gone \/ \E n \in DOMAIN o.files : e \in SeqRange(o.files[n].syn)
+        e \in o.gone \/ \E n \in DOMAIN o.files : o.files[n].ent /\ e \in SeqRange(o.files[n].syn)
 
 \* a torn record is followed by a separator or is last: never bytes of two events run together
 WellFormedOf(o) ==
